@@ -2,7 +2,7 @@
 
 (a) ``parse_encoding_list`` (real, no stubs): on comma-joined templates (codec / non-codec / empty
     elements, case variants, optional white space, q-parameters) and on every string of length
-    <= 4 (5 thorough) the result is the de-duplicated, order-preserving list of the codec names
+    <= 2 (3 thorough) the result is the de-duplicated, order-preserving list of the codec names
     it contains — against references computed from the construction, not from string operations.
 (b) ``_CompressionMiddleware._pick_response_encoding`` (real bytecode; ``parse_encoding_list``
     replaced by "returns any duplicate-free list of codecs", which is what (a) decides) for
@@ -42,7 +42,7 @@ ENCODED = [
 E = cod.Encoding
 _MEMBERS = list(E)
 _Z, _G, _I = E.ZSTD, E.GZIP, E.IDENTITY
-_LF = pick(2, 4)
+_LF = pick(2, 3)  # (len 4 does not finish in 600 CPU s; 4-letter names are covered by the glued/template items)
 
 BOUNDS = (
     "parse: 3-element comma lists over {zstd, gzip, identity, br, empty} x styles of (case variant, padding, q-parameter), codec names with any one glued character, any string "
@@ -85,21 +85,12 @@ _PARAMS = ["", ";q=0.5", " ; q=0"]
 _STYLES = pick([(0, 0, 0), (1, 1, 1), (2, 2, 2), (2, 1, 0)], [(v, p_, q_) for v in range(3) for p_ in range(3) for q_ in range(3)])
 
 
-@cond(q=60, t=400, encoded=[cod.parse_encoding_list], bound="3 elements over {zstd,gzip,identity,br,empty} x %d styles of (case variant, padding, q-parameter)" % len(_STYLES))
-def parse_list_templates(a: int, b: int, c: int, style: int) -> bool:
-    """
-    pre: 0 <= a < len(_TK) and 0 <= b < len(_TK) and 0 <= c < len(_TK) and 0 <= style < len(_STYLES)
-    post: _
-    """
+def _tpl_header(a: int, b: int, c: int, style: int) -> tuple[str, list]:
+    """The header and — from the construction, not from string operations — the codecs it lists."""
     variant, pad, param = _STYLES[style]
     lp, rp = _PADS[pad]
     q = _PARAMS[param]
     header = lp + _TEXT[a][variant] + rp + q + "," + lp + _TEXT[b][variant] + rp + q + "," + lp + _TEXT[c][variant] + rp + q
-    try:
-        got = cod.parse_encoding_list(header)
-    except Exception:  # noqa: BLE001
-        return False
-    # reference from the construction: recognised members in order, first occurrence only
     want: list = []
     ma, mb, mc = _TK[a][1], _TK[b][1], _TK[c][1]
     if ma is not None:
@@ -108,6 +99,46 @@ def parse_list_templates(a: int, b: int, c: int, style: int) -> bool:
         want.append(mb)
     if mc is not None and mc is not ma and mc is not mb:
         want.append(mc)
+    return header, want
+
+
+def _describe_parse(header: str, want: list | None) -> str | None:
+    try:
+        got: object = [e.value for e in cod.parse_encoding_list(header)]
+    except Exception as e:  # noqa: BLE001
+        got = f"{type(e).__name__}: {e}"
+    if want is not None and got == [e.value for e in want]:
+        return None
+    return f"parse_encoding_list({header!r}) = {got}" + (f"; the header lists {[e.value for e in want]}" if want is not None else "")
+
+
+def _replay_templates(args: dict) -> str | None:
+    header, want = _tpl_header(args["a"], args["b"], args["c"], args["style"])
+    return _describe_parse(header, want)
+
+
+def _replay_glued(args: dict) -> str | None:
+    m = _NAMED[args["which"]]
+    name = m.value if args["which"] % 2 else m.value.upper()
+    return _describe_parse((args["pad"] + name) if args["left"] else (name + args["pad"]), None)
+
+
+def _replay_freeform(args: dict) -> str | None:
+    return _describe_parse(args["s"], None)
+
+
+@cond(q=60, t=400, encoded=[cod.parse_encoding_list], bound="3 elements over {zstd,gzip,identity,br,empty} x %d styles of (case variant, padding, q-parameter)" % len(_STYLES),
+      replay=_replay_templates, signature=lambda a, c: "C19:parse:templates")
+def parse_list_templates(a: int, b: int, c: int, style: int) -> bool:
+    """
+    pre: 0 <= a < len(_TK) and 0 <= b < len(_TK) and 0 <= c < len(_TK) and 0 <= style < len(_STYLES)
+    post: _
+    """
+    header, want = _tpl_header(a, b, c, style)
+    try:
+        got = cod.parse_encoding_list(header)
+    except Exception:  # noqa: BLE001
+        return False
     return got == want
 
 
@@ -124,7 +155,7 @@ def _names_at(s: str, m: object, pos: int) -> bool:
     return True
 
 
-@cond(q=60, t=600, encoded=[cod.parse_encoding_list], bound=f"any string len<={_LF}")
+@cond(q=60, t=600, encoded=[cod.parse_encoding_list], bound=f"any string len<={_LF}", replay=_replay_freeform, signature=lambda a, c: "C19:parse:short-string")
 def parse_list_freeform(s: str) -> bool:
     """
     pre: len(s) <= _LF
@@ -158,7 +189,8 @@ def parse_list_freeform(s: str) -> bool:
 _NAMED = [m for m in _MEMBERS if m is not _I]  # the two real compressors (identity is decided by the templates)
 
 
-@cond(q=60, t=300, encoded=[cod.parse_encoding_list], bound="a codec name with ANY one character glued to its left or right")
+@cond(q=60, t=300, encoded=[cod.parse_encoding_list], bound="a codec name with ANY one character glued to its left or right",
+      replay=_replay_glued, signature=lambda a, c: "C19:parse:glued-character")
 def parse_list_glued_character(which: int, left: bool, pad: str) -> bool:
     """
     pre: 0 <= which < len(_NAMED) and len(pad) == 1
@@ -346,8 +378,19 @@ _REAL_HEADERS: list[tuple[str | None, list]] = [
 ]
 
 
+def _replay_real_headers(args: dict) -> str | None:
+    (ctext, custom), (stext, standard) = _REAL_HEADERS[args["ci"]], _REAL_HEADERS[args["si"]]
+    levels = _levels(args["pz"], args["pg"])
+    headers = {k: v for k, v in (("X-VGI-Accept-Encoding", ctext), ("Accept-Encoding", stext)) if v is not None}
+    chosen, used_custom = mwm._CompressionMiddleware(dict(levels))._pick_response_encoding(falcon.testing.create_req(headers=headers))
+    want, want_custom = _want(custom, standard, levels)
+    if chosen is not want or (want is not None and used_custom != want_custom):
+        return f"server producing {[e.value for e in levels]}, request headers {headers} -> ({getattr(chosen, 'value', None)}, custom_header={used_custom}); the rule gives ({getattr(want, 'value', None)}, custom_header={want_custom})"
+    return None
+
+
 @cond(q=60, t=120, encoded=[mwm._CompressionMiddleware._pick_response_encoding, cod.parse_encoding_list],
-      bound="9 x 9 representative real header strings x every encode subset (no stubs)")
+      bound="9 x 9 representative real header strings x every encode subset (no stubs)", replay=_replay_real_headers, signature=lambda a, c: "C19:pick:real-headers")
 def pick_on_real_headers(ci: int, si: int, pz: bool, pg: bool) -> bool:
     """
     pre: 0 <= ci < len(_REAL_HEADERS) and 0 <= si < len(_REAL_HEADERS)
@@ -514,7 +557,7 @@ _MW2 = _MWStubbedPick({_Z: 1, _G: 6})
 _SUB = pick([_LISTS.index(x) for x in ([], [_Z], [_G], [_I], [_G, _Z], [_Z, _I])], list(range(_NL)))
 
 
-@cond(q=60, t=300, stubs=_STUBS, encoded=[mwm._CompressionMiddleware.process_request, mwm._CompressionMiddleware.process_response, mwm._CompressionMiddleware._pick_response_encoding],
+@cond(q=60, t=600, stubs=_STUBS, encoded=[mwm._CompressionMiddleware.process_request, mwm._CompressionMiddleware.process_response, mwm._CompressionMiddleware._pick_response_encoding],
       bound="%dx%d pairs of duplicate-free lists x every encode subset x {unary, empty, no stream, pre-compressed producer, non-Arrow}" % (len(_SUB), len(_SUB)),
       replay=_replay_exchange, signature=lambda a, c: "C19:exchange:" + ["unary", "empty", "nostream", "producer", "nonarrow"][a["kind"]])
 def announced_header_and_decoded_body(ci: int, si: int, pz: bool, pg: bool, kind: int) -> bool:
